@@ -37,6 +37,9 @@ TRUSTED = [
     "translator/c20_args2lean.py (ast translation of the argument-resolution statements of Table.sorted / inner_join / "
     "joined into Gen/C20Args.lean, every run) and its value domain Model/TableArgs.lean (None | str | list | tuple of "
     "column NAMES; total primitives, TypeError guards only at strict positions; int positions / slices / masks outside)",
+    "translator/c20_load2lean.py (ast translation of the row logic of parse/table.py::load_delimited into Gen/C20Load.lean, "
+    "every run) and its primitives Model/TableLoad.lean (the csv reader = the list of records still to be yielded; "
+    "next / pop(0) / pop(-1) return the value and the rest; the loop with break = a fold with a break flag)",
     "numpy fancy/boolean indexing, numpy.rec argsort (any sorting permutation), CPython csv/json/pickle/gzip "
     "are modelled or used as oracles, not verified",
 ]
